@@ -141,8 +141,10 @@ class Layout(object):
         self.extra = {}
 
     def desc(self):
-        return {'mounts': self.mounts, 'uid': self.uid, 'env': self.env,
-                'cwd': self.cwd, 'nodes': self.nodes}
+        d = {'mounts': self.mounts, 'uid': self.uid, 'env': self.env,
+             'cwd': self.cwd, 'nodes': self.nodes}
+        d.update(self.extra)         # run-wide plan defaults (listdir_seed, ...)
+        return d
 
     def add(self, *nodes):
         for n in nodes:
